@@ -19,16 +19,16 @@ open Nq Nq.Bounce Nq.BounceSpec Nq.Lemmas.Bounce
 lines, `<x>:` look-alikes, 8-bit) and every virtualdomains table, whatever follows in the file: the
 reader sees exactly one paragraph `core`, then continues between paragraphs.  `core` begins with the
 line naming the recipient and is everything that was written except the final empty line(s). -/
-theorem C14_paragraph (es : List (Bytes × Bytes)) (recip report rest : Bytes) :
+theorem C14_paragraph (es : Tables) (recip report rest : Bytes) :
     ∃ core, paras .blank (addbounceText es recip report ++ rest) = core :: paras .blank rest
-      ∧ recipLine (namedRecipient es recip) <+: core
+      ∧ recipLine (namedRecipient es.locals es.vdoms recip) <+: core
       ∧ (addbounceText es recip report = core ++ [LF] ∨ addbounceText es recip report = core ++ [LF, LF]) := by
   refine ⟨paraCore es recip report, paras_addbounceText es recip report rest, ?_, paraCore_prefix es recip report⟩
   rw [← stripvdom_eq_named]
   exact recipLine_prefix_paraCore es recip report
 
 /-- …in particular the text written for one failure is one paragraph. -/
-theorem C14_paragraph_one (es : List (Bytes × Bytes)) (recip report : Bytes) :
+theorem C14_paragraph_one (es : Tables) (recip report : Bytes) :
     (paragraphs (addbounceText es recip report)).length = 1 := by
   have := paras_addbounceText es recip report []
   simp only [List.append_nil] at this
@@ -45,50 +45,29 @@ theorem C14_recipient_line (addr : Bytes) :
   · simp [hc, LF] at ha
   · simp [hc] at ha
 
-/-- the i-th paragraph begins with the line naming the i-th failed recipient (and there are equally many) -/
-def NamedInOrder (es : List (Bytes × Bytes)) : List (Bytes × Bytes) → List Bytes → Prop
-  | [], [] => True
-  | f :: fs, p :: ps => recipLine (namedRecipient es f.1) <+: p ∧ NamedInOrder es fs ps
-  | _, _ => False
-
-theorem namedInOrder_cores (es : List (Bytes × Bytes)) (fails : List (Bytes × Bytes)) :
-    NamedInOrder es fails (fails.map (fun f => paraCore es f.1 f.2)) := by
-  induction fails with
-  | nil => simp [NamedInOrder]
-  | cons f fs ih =>
-    simp only [List.map_cons, NamedInOrder]
-    refine ⟨?_, ih⟩
-    rw [← stripvdom_eq_named]
-    exact recipLine_prefix_paraCore es f.1 f.2
-
-theorem paragraphs_bounceFile (es : List (Bytes × Bytes)) (fails : List (Bytes × Bytes)) :
-    paragraphs (bounceFile es fails) = fails.map (fun f => paraCore es f.1 f.2) := by
-  have := paras_bounceFile es fails []
-  simpa [paragraphs, paras] using this
-
 /-- **The bounce file has exactly one paragraph per failed recipient, in order, the i-th naming the
 i-th recipient** — for every list of failures, in any combination and order, with arbitrary report
 bytes.  Report text cannot add, remove or re-label a paragraph. -/
-theorem C14_paragraphs_file (es : List (Bytes × Bytes)) (fails : List (Bytes × Bytes)) :
+theorem C14_paragraphs_file (es : Tables) (fails : List (Bytes × Bytes)) :
     (paragraphs (bounceFile es fails)).length = fails.length ∧
-    NamedInOrder es fails (paragraphs (bounceFile es fails)) := by
+    NamedInOrder es.locals es.vdoms fails (paragraphs (bounceFile es fails)) := by
   rw [paragraphs_bounceFile]
   exact ⟨by simp, namedInOrder_cores es fails⟩
 
 /-- **The failure text follows the recipient line**: the same bytes, except that an LF which
 directly follows an LF (or opens the report) is shown as '/', one final LF is implied, and an empty
 line ends the paragraph. -/
-theorem C14_report_shown (es : List (Bytes × Bytes)) (recip report : Bytes) :
-    ∃ b tail, addbounceText es recip report = recipLine (namedRecipient es recip) ++ b ++ tail
+theorem C14_report_shown (es : Tables) (recip report : Bytes) :
+    ∃ b tail, addbounceText es recip report = recipLine (namedRecipient es.locals es.vdoms recip) ++ b ++ tail
       ∧ sanit (chomp1 report) b = true ∧ (tail = [LF] ∨ tail = [LF, LF]) := by
   refine ⟨squashAll true (chomp1 report), if report = [] then [LF] else [LF, LF], ?_, sanit_squashAll _ _, ?_⟩
   · rw [← stripvdom_eq_named]; exact addbounceText_shape es recip report
   · split <;> simp
 
 /-- A report without empty lines that does not begin with LF is shown verbatim. -/
-theorem C14_report_verbatim (es : List (Bytes × Bytes)) (recip report : Bytes)
+theorem C14_report_verbatim (es : Tables) (recip report : Bytes)
     (h1 : hasLFLF report = false) (h2 : report.head? ≠ some LF) (h3 : report ≠ []) :
-    addbounceText es recip report = recipLine (namedRecipient es recip) ++ chomp1 report ++ [LF, LF] := by
+    addbounceText es recip report = recipLine (namedRecipient es.locals es.vdoms recip) ++ chomp1 report ++ [LF, LF] := by
   rw [addbounceText_shape, stripvdom_eq_named]
   have hc1 : hasLFLF (chomp1 report) = false := by
     unfold chomp1
@@ -121,61 +100,111 @@ theorem C14_report_verbatim (es : List (Bytes × Bytes)) (recip report : Bytes)
   rw [squashAll_id _ true hc1 (fun _ => hc2)]
   simp [h3]
 
-/-! ### The virtual-domain prefix -/
+/-- **The model's scan is the C loop.**  `scanInPlace` is the literal transcription of
+`for (pos = len - 2;pos > 0;--pos) if (s[pos] == '\n') if (s[pos - 1] == '\n') s[pos] = '/';`
+(in-place writes, descending positions); the forward pass used by `addbounceText` computes the same
+text for every input. -/
+theorem C14_scan_literal (s : Bytes) : scanInPlace s = scanFrom false s := scanInPlace_eq s
 
-/-- **`stripvdomprepend` implements the documented precedence**: the entry that governs the
-recipient's domain (the domain itself, else the longest `.suffix` wildcard, else the catch-all;
-last entry wins, keys case-insensitive) decides, and its `prepend-` is removed exactly when the
-recipient starts with it. -/
-theorem C14_strip (es : List (Bytes × Bytes)) (recip : Bytes) :
-    stripvdom es recip = namedRecipient es recip := stripvdom_eq_named es recip
+/-! ### The virtual-domain prefix: `stripvdomprepend` undoes exactly what `rewrite()` did -/
 
-/-- the prefix is removed when the governing entry's non-empty `prepend` and a dash start the recipient -/
-theorem C14_strip_removed (es : List (Bytes × Bytes)) (recip d p : Bytes)
-    (hd : domainPart recip = some d) (hg : governing es d = some p) (hp : p ≠ [])
-    (hpre : (p ++ [45]) <+: recip) : p ++ 45 :: stripvdom es recip = recip := by
+/-- **`stripvdomprepend` implements the documented precedence** (the order of `rewrite()`): a
+recipient at a domain listed in `locals` is named as it is; otherwise a virtual-*user* prefix is
+removed (first cut `prepend-rest` such that `rest` has an entry with exactly that non-empty prepend);
+otherwise the entry that governs the recipient's domain (the domain itself, else the longest
+`.suffix` wildcard, else the catch-all; last entry wins, keys case-insensitive) decides, and its
+`prepend-` is removed exactly when the recipient starts with it. -/
+theorem C14_strip (t : Tables) (recip : Bytes) :
+    stripvdom t recip = namedRecipient t.locals t.vdoms recip := stripvdom_eq_named t recip
+
+/-- **Rule "locals first"** (repaired defect F2): a recipient whose domain is listed in control/locals
+was never given a prefix by `rewrite()`; the bounce names it as it was addressed, whatever
+virtualdomains says. -/
+theorem C14_strip_local (t : Tables) (recip d : Bytes)
+    (hd : domainPart recip = some d) (hl : isLocal t.locals d = true) : stripvdom t recip = recip := by
+  rw [stripvdom_eq_named]
+  simp [namedRecipient, hd, hl]
+
+/-- **Rule "virtual users"** (repaired defect F1): outside `locals`, if the recipient can be cut as
+`prepend-rest` where `rest` has a virtualdomains entry with exactly this non-empty prepend, the
+bounce names `rest` (the first such cut). -/
+theorem C14_strip_user (t : Tables) (recip d rest : Bytes)
+    (hd : domainPart recip = some d) (hl : isLocal t.locals d = false)
+    (hu : userSplit t.vdoms recip = some rest) : stripvdom t recip = rest := by
+  rw [stripvdom_eq_named]
+  simp [namedRecipient, hd, hl, hu]
+
+/-- **What `rewrite()` prepends for a virtual user is what the bounce removes**: if `addr` (not at a
+local domain) has the entry `addr:p` with `p` non-empty and dash-free, the local recipient `p-addr`
+is named `addr`. -/
+theorem C14_strip_user_rewrite (t : Tables) (addr d p : Bytes)
+    (hd : domainPart addr = some d) (hl : isLocal t.locals d = false)
+    (he : entryFor t.vdoms addr = some p) (hp : p ≠ []) (hdash : (45 : Byte) ∉ p) :
+    stripvdom t (p ++ 45 :: addr) = addr := by
+  have hd' : domainPart (p ++ 45 :: addr) = some d := by
+    rw [← domainOf_eq_domainPart] at hd ⊢
+    have := domainOf_append (p ++ [45]) addr d hd
+    simpa using this
+  refine C14_strip_user t _ d addr hd' hl ?_
+  rw [← userStripGo_eq_userSplit, userStripGo_skip _ _ _ _ hdash]
+  have hpe : p.isEmpty = false := by simpa using hp
+  rw [entryFor_eq_cmLookup] at he
+  simp [userStripGo, DASH, he, hpe]
+
+/-- outside `locals` and with no virtual-user cut, the prefix is removed when the governing entry's
+non-empty `prepend` and a dash start the recipient -/
+theorem C14_strip_removed (t : Tables) (recip d p : Bytes)
+    (hd : domainPart recip = some d) (hl : isLocal t.locals d = false) (hu : userSplit t.vdoms recip = none)
+    (hg : governing t.vdoms d = some p) (hp : p ≠ [])
+    (hpre : (p ++ [45]) <+: recip) : p ++ 45 :: stripvdom t recip = recip := by
   rw [stripvdom_eq_named]
   unfold namedRecipient
-  obtain ⟨t, ht⟩ := hpre
+  obtain ⟨r, ht⟩ := hpre
   have hpb : (p ++ [45]).isPrefixOf recip = true := by
-    rw [List.isPrefixOf_iff_prefix]; exact ⟨t, ht⟩
+    rw [List.isPrefixOf_iff_prefix]; exact ⟨r, ht⟩
   have hpe : p.isEmpty = false := by simpa using hp
-  simp only [hd, hg, hpe, hpb, Bool.not_false, Bool.and_self, if_true]
+  simp only [hd, hl, hu, hg, hpe, hpb, Bool.not_false, Bool.and_self, if_true, Bool.false_eq_true, if_false]
   rw [← ht]
   simp
 
-/-- …and in every other case the recipient is named as it is -/
-theorem C14_strip_kept (es : List (Bytes × Bytes)) (recip : Bytes)
-    (h : ∀ d p, domainPart recip = some d → governing es d = some p → p = [] ∨ ¬ (p ++ [45]) <+: recip) :
-    stripvdom es recip = recip := by
+/-- …and in every other case (no virtual-user cut, no governing entry, an exception entry, or the
+recipient does not start with `prepend-`) the recipient is named as it is -/
+theorem C14_strip_kept (t : Tables) (recip : Bytes) (hu : userSplit t.vdoms recip = none)
+    (h : ∀ d p, domainPart recip = some d → governing t.vdoms d = some p → p = [] ∨ ¬ (p ++ [45]) <+: recip) :
+    stripvdom t recip = recip := by
   rw [stripvdom_eq_named]
   unfold namedRecipient
   cases hd : domainPart recip with
   | none => rfl
   | some d =>
-    cases hg : governing es d with
-    | none => simp [hg]
-    | some p =>
-      rcases h d p hd hg with hp | hp
-      · simp [hg, hp]
-      · have : (p ++ [45]).isPrefixOf recip = false := by
-          cases hb : (p ++ [45]).isPrefixOf recip with
-          | false => rfl
-          | true => exact absurd (List.isPrefixOf_iff_prefix.mp hb) hp
-        simp only [hg, this, Bool.and_false, Bool.false_eq_true, if_false]
+    simp only [hu]
+    split
+    · rfl
+    · cases hg : governing t.vdoms d with
+      | none => simp [hg]
+      | some p =>
+        rcases h d p hd hg with hp | hp
+        · simp [hg, hp]
+        · have : (p ++ [45]).isPrefixOf recip = false := by
+            cases hb : (p ++ [45]).isPrefixOf recip with
+            | false => rfl
+            | true => exact absurd (List.isPrefixOf_iff_prefix.mp hb) hp
+          simp only [hg, this, Bool.and_false, Bool.false_eq_true, if_false]
 
 /-- **What `rewrite()` prepends for a virtual domain is what the bounce removes**: if `p` is the
-(non-empty) prepend of the entry governing `addr`'s domain, the local recipient `p-addr` is named
-`addr` in the bounce. -/
-theorem C14_strip_rewrite (es : List (Bytes × Bytes)) (addr d p : Bytes)
-    (hd : domainPart addr = some d) (hg : governing es d = some p) (hp : p ≠ []) :
-    stripvdom es (p ++ 45 :: addr) = addr := by
+(non-empty) prepend of the entry governing `addr`'s domain, the domain is not local and no
+virtual-user cut applies, the local recipient `p-addr` is named `addr` in the bounce. -/
+theorem C14_strip_rewrite (t : Tables) (addr d p : Bytes)
+    (hd : domainPart addr = some d) (hl : isLocal t.locals d = false)
+    (hu : userSplit t.vdoms (p ++ 45 :: addr) = none)
+    (hg : governing t.vdoms d = some p) (hp : p ≠ []) :
+    stripvdom t (p ++ 45 :: addr) = addr := by
   have hd' : domainPart (p ++ 45 :: addr) = some d := by
     rw [← domainOf_eq_domainPart] at hd ⊢
     have := domainOf_append (p ++ [45]) addr d hd
     simpa using this
-  have := C14_strip_removed es (p ++ 45 :: addr) d p hd' hg hp ⟨addr, by simp⟩
-  have h2 : p ++ 45 :: stripvdom es (p ++ 45 :: addr) = p ++ 45 :: addr := this
+  have := C14_strip_removed t (p ++ 45 :: addr) d p hd' hl hu hg hp ⟨addr, by simp⟩
+  have h2 : p ++ 45 :: stripvdom t (p ++ 45 :: addr) = p ++ 45 :: addr := this
   have h3 := List.append_cancel_left h2
   simpa using h3
 
@@ -217,6 +246,19 @@ theorem C14_envelope (cfg : Cfg) (date bf : Bytes) (m m' : Msg) (h : bounceOf cf
       left
       rw [← h]
       exact ⟨by simpa using h2, rfl, rfl⟩
+
+/-- **The double-bounce address is `doublebounceto@doublebouncehost`** as getcontrols() assembles it:
+first line of each control file (trailing blanks removed); `doublebouncehost` falls back to `me`, then
+to the literal name; `doublebounceto` falls back to `postmaster`. -/
+theorem C14_doublebounce_address (c : Controls) :
+    (getcontrols c).doublebounceto =
+      rldef c.doublebounceto c.me false (str "postmaster") ++ [AT]
+        ++ rldef c.doublebouncehost c.me true (str "doublebouncehost") ∧
+    (c.doublebounceto = none → c.doublebouncehost = none → c.me = none →
+      (getcontrols c).doublebounceto = str "postmaster" ++ [AT] ++ str "doublebouncehost") := by
+  refine ⟨rfl, ?_⟩
+  intro h1 h2 h3
+  simp [getcontrols, rldef, h1, h2, h3]
 
 /-- **A failing double bounce is discarded**: nothing is generated exactly for the sender `#@[]`
 (after VERP-suffix removal). -/
@@ -295,15 +337,15 @@ paragraph per failed recipient — the i-th naming the i-th recipient — then t
 neither report text nor recipient addresses nor the original message can change that count or
 re-label one of those paragraphs. -/
 theorem C14_notice_paragraphs (cfg : Cfg) (date : Bytes) (fails : List (Bytes × Bytes)) (m m' : Msg)
-    (h : bounceOf cfg date (bounceFile cfg.vdoms fails) m = some m') :
-    ∃ pre post ps, m'.body = pre ++ bounceFile cfg.vdoms fails ++ post
+    (h : bounceOf cfg date (bounceFile cfg.tables fails) m = some m') :
+    ∃ pre post ps, m'.body = pre ++ bounceFile cfg.tables fails ++ post
       ∧ paragraphs m'.body = paragraphs pre ++ ps ++ paragraphs post
       ∧ ps.length = fails.length
-      ∧ NamedInOrder cfg.vdoms fails ps
+      ∧ NamedInOrder cfg.locals cfg.vdoms fails ps
       ∧ m.body <:+ post := by
   have key : ∀ (pre0 intro post : Bytes), (intro = introSingle ∨ intro = introDouble) →
-      paragraphs ((pre0 ++ intro) ++ bounceFile cfg.vdoms fails ++ post)
-        = paragraphs (pre0 ++ intro) ++ paragraphs (bounceFile cfg.vdoms fails) ++ paragraphs post := by
+      paragraphs ((pre0 ++ intro) ++ bounceFile cfg.tables fails ++ post)
+        = paragraphs (pre0 ++ intro) ++ paragraphs (bounceFile cfg.tables fails) ++ paragraphs post := by
     intro pre0 intro post hi
     have hb : endSt .blank (pre0 ++ intro) = .blank := by
       rcases hi with hi | hi <;> subst hi
@@ -312,7 +354,7 @@ theorem C14_notice_paragraphs (cfg : Cfg) (date : Bytes) (fails : List (Bytes ×
     rw [paragraphs_bounceFile]
     unfold paragraphs
     rw [List.append_assoc (pre0 ++ intro), paras_append_blank _ _ _ hb, paras_bounceFile, List.append_assoc]
-  have hf := C14_paragraphs_file cfg.vdoms fails
+  have hf := C14_paragraphs_file cfg.tables fails
   have hsuf : ∀ (single : Bool) (base : Bytes), m.body <:+ trailer single base m.body := by
     intro single base
     refine ⟨(if single then markerSingle else markerDouble) ++ str "Return-Path: <" ++ Quote.quote2 base ++ str ">\n", ?_⟩
@@ -324,7 +366,7 @@ theorem C14_notice_paragraphs (cfg : Cfg) (date : Bytes) (fails : List (Bytes ×
     simp only [hd, Option.some.injEq] at h
     rw [← h]
     refine ⟨preamble cfg date cfg.doublebounceto false, trailer false [] m.body,
-      paragraphs (bounceFile cfg.vdoms fails), rfl, ?_, hf.1, hf.2, hsuf _ _⟩
+      paragraphs (bounceFile cfg.tables fails), rfl, ?_, hf.1, hf.2, hsuf _ _⟩
     unfold preamble
     simp only [Bool.false_eq_true, if_false]
     exact key _ introDouble _ (Or.inr rfl)
@@ -332,7 +374,7 @@ theorem C14_notice_paragraphs (cfg : Cfg) (date : Bytes) (fails : List (Bytes ×
     simp only [hd, Option.some.injEq] at h
     rw [← h]
     refine ⟨preamble cfg date r true, trailer true r m.body,
-      paragraphs (bounceFile cfg.vdoms fails), rfl, ?_, hf.1, hf.2, hsuf _ _⟩
+      paragraphs (bounceFile cfg.tables fails), rfl, ?_, hf.1, hf.2, hsuf _ _⟩
     unfold preamble
     simp only [if_true]
     exact key _ introSingle _ (Or.inl rfl)
@@ -400,45 +442,51 @@ theorem C14_every_failure_bounces (cfg : Cfg) (date : Bytes) (id qp : Nat) (send
 
 /-! ### Which reports become bounce paragraphs (del_dochan) -/
 
-/-- a permanent failure report (status `D`) of ordinary length is recorded with its text -/
-theorem C14_report_D (dying : Bool) (n : Byte) (text : Bytes) (h : text.length + 2 ≤ Gen.REPORTMAX) :
-    delReport dying (n :: 68 :: text) = some text := by
+/-- a permanent failure report (status `D`) is recorded with its text, cut so that delivery number,
+status and text together do not exceed REPORTMAX bytes ("we don't trust rspawn") -/
+theorem C14_report_D (dying : Bool) (n : Byte) (text : Bytes) :
+    delReport dying (n :: 68 :: text) = some (text.take (Gen.REPORTMAX - 2)) := by
+  obtain ⟨k, hk⟩ : ∃ k, Gen.REPORTMAX = k + 2 := ⟨Gen.REPORTMAX - 2, by decide⟩
   unfold delReport
-  have : (n :: 68 :: text).take Gen.REPORTMAX = n :: 68 :: text := List.take_of_length_le (by simpa using h)
-  simp [this]
+  rw [hk]
+  simp [List.take]
 
 /-- **A temporary failure past the queue lifetime is a permanent one**: status `Z` on a dying
-message is recorded with the explanation appended … -/
-theorem C14_report_expired (n : Byte) (text : Bytes) (h : text.length + 2 < Gen.REPORTMAX) :
-    delReport true (n :: 90 :: text) = some (text ++ dyingText) := by
+message is recorded, with the explanation appended (the text is cut one byte earlier) … -/
+theorem C14_report_expired (n : Byte) (text : Bytes) :
+    delReport true (n :: 90 :: text) = some (text.take (Gen.REPORTMAX - 3) ++ dyingText) := by
+  obtain ⟨k, hk⟩ : ∃ k, Gen.REPORTMAX = k + 3 := ⟨Gen.REPORTMAX - 3, by decide⟩
   unfold delReport
-  have h1 : (n :: 90 :: text).take Gen.REPORTMAX = n :: 90 :: text := List.take_of_length_le (by simp; omega)
-  have h2 : (n :: 90 :: text).take (Gen.REPORTMAX - 1) = n :: 90 :: text := List.take_of_length_le (by simp; omega)
-  simp [h1, h2]
+  rw [hk]
+  simp [List.take]
 
 /-- … while before expiry (`Z`), on success (`K`) or on a mangled report nothing is recorded. -/
 theorem C14_report_none (n st : Byte) (text : Bytes) (h : st ≠ 68) (h' : st ≠ 90) (dying : Bool) :
     delReport dying (n :: st :: text) = none ∧ delReport false (n :: 90 :: text) = none := by
+  obtain ⟨k, hk⟩ : ∃ k, Gen.REPORTMAX = k + 2 := ⟨Gen.REPORTMAX - 2, by decide⟩
   unfold delReport
-  have : Gen.REPORTMAX = 9998 + 2 := rfl
-  simp [this, List.take, h, h']
+  rw [hk]
+  simp [List.take, h, h']
 
 /-! ### Non-vacuity: concrete inputs (bytes written out) -/
 
 /-- report "\n\n<v>:\nx" against recipient "a@b": the forged paragraph stays inside the one paragraph -/
-example : addbounceText [] [97, 64, 98] [10, 10, 60, 118, 62, 58, 10, 120]
+example : addbounceText ⟨[], []⟩ [97, 64, 98] [10, 10, 60, 118, 62, 58, 10, 120]
     = [60, 97, 64, 98, 62, 58, 10, 47, 47, 60, 118, 62, 58, 10, 120, 10, 10] := by decide
-example : paragraphs (addbounceText [] [97, 64, 98] [10, 10, 60, 118, 62, 58, 10, 120])
+example : paragraphs (addbounceText ⟨[], []⟩ [97, 64, 98] [10, 10, 60, 118, 62, 58, 10, 120])
     = [[60, 97, 64, 98, 62, 58, 10, 47, 47, 60, 118, 62, 58, 10, 120, 10]] := by decide
 /-- a report ending in an empty line leaves two empty lines, still one paragraph -/
-example : addbounceText [] [97, 64, 98] [120, 10, 10] = [60, 97, 64, 98, 62, 58, 10, 120, 10, 10, 10] := by decide
+example : addbounceText ⟨[], []⟩ [97, 64, 98] [120, 10, 10] = [60, 97, 64, 98, 62, 58, 10, 120, 10, 10, 10] := by decide
 /-- recipient "p-a\n@b" with entry "b:p": prefix removed, LF shown as '_' -/
-example : addbounceText [([98], [112])] [112, 45, 97, 10, 64, 98] [] = [60, 97, 95, 64, 98, 62, 58, 10, 10] := by decide
+example : addbounceText ⟨[], [([98], [112])]⟩ [112, 45, 97, 10, 64, 98] [] = [60, 97, 95, 64, 98, 62, 58, 10, 10] := by decide
 /-- wildcard ".b:q" governs "x.b", exception "a.b:" keeps "q-u@a.b" as it is -/
-example : stripvdom [([46, 98], [113]), ([97, 46, 98], [])] [113, 45, 117, 64, 120, 46, 98] = [117, 64, 120, 46, 98] := by decide
-example : stripvdom [([46, 98], [113]), ([97, 46, 98], [])] [113, 45, 117, 64, 97, 46, 98] = [113, 45, 117, 64, 97, 46, 98] := by decide
-/-- what the code does for a virtual *user* entry "u@b:p" (rewrite() prepends, the bounce keeps the prefix) -/
-example : stripvdom [([117, 64, 98], [112])] [112, 45, 117, 64, 98] = [112, 45, 117, 64, 98] := by decide
+example : stripvdom ⟨[], [([46, 98], [113]), ([97, 46, 98], [])]⟩ [113, 45, 117, 64, 120, 46, 98] = [117, 64, 120, 46, 98] := by decide
+example : stripvdom ⟨[], [([46, 98], [113]), ([97, 46, 98], [])]⟩ [113, 45, 117, 64, 97, 46, 98] = [113, 45, 117, 64, 97, 46, 98] := by decide
+/-- virtual *user* entry "u@b:p": the local recipient "p-u@b" is named "u@b" (F1, repaired) -/
+example : stripvdom ⟨[], [([117, 64, 98], [112])]⟩ [112, 45, 117, 64, 98] = [117, 64, 98] := by decide
+/-- "b" in locals and "b:p" in virtualdomains: the local recipient "p-u@b" keeps its name (F2, repaired) -/
+example : stripvdom ⟨[[98]], [([98], [112])]⟩ [112, 45, 117, 64, 98] = [112, 45, 117, 64, 98] := by decide
+example : stripvdom ⟨[], [([98], [112])]⟩ [112, 45, 117, 64, 98] = [117, 64, 98] := by decide
 /-- sender forms: "x-@h-@[]" -> single bounce to "x-@h"; "" -> double; "#@[]" -> discard; "-@[]" -> double -/
 example : decideBounce [120, 45, 64, 104, 45, 64, 91, 93] = .single [120, 45, 64, 104] := by decide
 example : decideBounce [] = .double := by decide
